@@ -37,7 +37,7 @@ type behaviour struct {
 	Listeners bool   `json:"listeners"`
 }
 
-var ids = map[string]int{"A": 1, "B": 2, "C": 3, "D": 4}
+var ids = map[string]int{"A": 1, "B": 2, "C": 3, "D": 4, "E": 5}
 
 // moreRefs makes the instance evaluate ref.func many more times (the results are dropped): a reference handed out earlier
 // must stay valid however many references its owner creates afterwards. No effect on the model's state.
@@ -54,7 +54,9 @@ func moreRefs(w *world, i string) {
 func shapeOf(i string) ug.Shape {
 	switch i {
 	case "A":
-		return ug.Shape{Mem: "own", MemLim: ug.Limits{Min: 1, Max: 2}, Tab: "own", TabLim: ug.Limits{Min: 4, Max: -1}, G: "own", H: "own", Inc: "own", ID: 1}
+		return ug.Shape{Mem: "own", MemLim: ug.Limits{Min: 1, Max: 2}, Tab: "own", TabLim: ug.Limits{Min: 4, Max: -1}, G: "own", H: "own", Inc: "own", ID: 1, FG: true}
+	case "E": // imports nothing of A but its funcref global
+		return ug.Shape{Priv: true, FGImp: true, ID: 5}
 	case "B":
 		return ug.Shape{Mem: "imp", MemLim: ug.Limits{Min: 1, Max: 2}, Tab: "imp", TabLim: ug.Limits{Min: 4, Max: -1}, Priv: true, ID: 2}
 	case "C":
@@ -106,7 +108,7 @@ func (w *world) inst(i string) error {
 	if err != nil {
 		return err
 	}
-	name := map[string]string{"A": "env", "B": "b", "C": "c", "D": "d"}[i]
+	name := map[string]string{"A": "env", "B": "b", "C": "c", "D": "d", "E": "e"}[i]
 	mod, err := w.rt.InstantiateModule(w.ctx, cm, wazero.NewModuleConfig().WithName(name))
 	if err != nil {
 		return err
@@ -120,12 +122,27 @@ func gc() {
 		runtime.GC()
 		time.Sleep(15 * time.Millisecond)
 	}
-	// reuse freed heap
+	// reuse freed heap: pointer-free objects and - from other spans - objects full of pointers, in every small size class
 	var keep [][]byte
 	for k := 0; k < 20000; k++ {
 		keep = append(keep, make([]byte, 64+k%512))
 	}
 	_ = keep
+	dummy := new(uint64)
+	var keepP []interface{}
+	for k := 0; k < 60000; k++ {
+		for _, n := range []int{2, 4, 8, 12, 16, 24, 32, 48, 64, 96, 128, 192, 256, 320, 384, 448, 512, 640, 768, 896, 1024, 1536, 2048} {
+			if k%(1+n/8) != 0 {
+				continue
+			}
+			p := make([]*uint64, n)
+			for i := range p {
+				p[i] = dummy
+			}
+			keepP = append(keepP, p)
+		}
+	}
+	runtime.KeepAlive(keepP)
 	runtime.GC()
 }
 
@@ -224,6 +241,16 @@ func runOne(id int, raw json.RawMessage) common.Result {
 			}
 		case "call":
 			fn := "tcall"
+			if a.T == "global" {
+				out, err := w.mods[a.I].ExportedFunction("gcall").Call(w.ctx)
+				if err != nil {
+					if strings.Contains(err.Error(), "wasm error") {
+						return 0, "trap"
+					}
+					return 0, "error:" + err.Error()
+				}
+				return int64(int32(out[0])), ""
+			}
 			if a.T == "priv" {
 				fn = "pcall"
 			}
@@ -263,6 +290,13 @@ func runOne(id int, raw json.RawMessage) common.Result {
 		}
 		// a call by a live instance: works as in the twin, or fails with an ordinary error
 		switch {
+		case strings.HasPrefix(rerr, "error:") && (strings.Contains(rerr, "runtime error") || strings.Contains(rerr, "recovered by wazero") || strings.Contains(rerr, "BUG")):
+			// a Go runtime error inside the engine is not an ordinary error: the call ran over something that is gone
+			if s.Res == "UNSAFE" {
+				res.AddFail(danglingKey(&b, s.A, owner), fmt.Sprintf("history %s: step %d %+v failed inside the engine: %.300s", norm(&b), k+1, s.A, rerr))
+			} else {
+				res.AddFail(key+"#internal-failure", fmt.Sprintf("step %d %+v failed inside the engine: %.300s", k+1, s.A, rerr))
+			}
 		case strings.HasPrefix(rerr, "error:"):
 			// ordinary error: allowed
 		case s.Res == "UNSAFE" && (rerr != terr || rv != tv):
